@@ -17,6 +17,7 @@ TRUSTED = [
     "time: ageing hook (*Proxy).VerifAge as for C06",
 ]
 ASSUMPTIONS = [
+    "Model/Proxy.v strips the client's regular conditionals on every method; the code (since fix bd24877) does so on GET and HEAD only and passes a write's preconditions on (C08_write_preconditions). For methods other than GET/HEAD the model describes the code on requests without regular conditionals, and cmd/reval generates only those",
     "sequential requests without a Range field; the coalesced hand-over (a follower whose re-read of the entry fails, a leader that hangs up) is proved over Model/Coalesce.v and forced by harness cmd/coalesce (C05): after this property's repair no shared fetch ends in an error for cache reasons",
     "the fault 'entry removed between UpdateMetadata and Get inside handleUpstream304' (f_reget = RgGone) is covered by the theorem but cannot be forced from outside; its sibling RgError (data file removed, file backend) is forced",
     "a transport failure towards the origin (no answer at all) is not a good origin answer: the 502 is then the proxy's honest answer",
